@@ -305,6 +305,15 @@ Section Imported.
                  | None => acc
                  end) def_names acc.
 
+  (** entries of one module: its last binding of every name not seen yet *)
+  Definition add_last (m : path) (acc : list fdef) : list fdef :=
+    fold_left (fun acc n =>
+                 if existsb (fun d => String.eqb (d_name d) n) acc then acc else
+                 match max_by_key d_line (filter (fun d => path_eqb (d_file d) m) (defs_named s n)) with
+                 | Some d => acc ++ [d]
+                 | None => acc
+                 end) def_names acc.
+
   Definition add_imported (c : path) (acc : list fdef) : list fdef :=
     if in_cache s c then
       fold_left (fun acc n =>
@@ -316,13 +325,13 @@ Section Imported.
     else acc.
 
   Definition available (F : path) : list fdef :=
-    let acc := add_first (fun d => path_eqb (d_file d) F) [] in
+    let acc := add_last F [] in
     let acc := match F with
                | [] => acc
                | _ :: dir =>
                    fold_left (fun acc dir =>
                                 let c := conftest_py :: dir in
-                                add_imported c (add_first (fun d => path_eqb (d_file d) c) acc))
+                                add_imported c (add_last c acc))
                              (ancestors dir) acc
                end in
     let acc := add_first (fun d => d_plugin d && negb (d_third d)) acc in
@@ -337,7 +346,8 @@ Section Imported.
          if is_conftest (d_file d) && starts_with F (tl (d_file d)) then
            let depth := len (tl (d_file d)) + 1 in  (* components incl. the root *)
            match acc with
-           | (Some b, Some bd) => if bd <? depth then (Some d, Some depth) else acc
+           | (Some b, Some bd) =>
+               if (bd <? depth) || ((bd =? depth) && (d_line b <? d_line d)) then (Some d, Some depth) else acc
            | _ => (Some d, Some depth)
            end
          else acc)
@@ -348,7 +358,7 @@ Section Imported.
     match dn with
     | [] => None
     | first :: _ =>
-      match find (fun d => path_eqb (d_file d) F) dn with
+      match max_by_key d_line (filter (fun d => path_eqb (d_file d) F) dn) with
       | Some d => Some d
       | None =>
         match best_conftest F dn with
